@@ -108,9 +108,11 @@ def netJ (kinds : List String) (n : XNet CNet) : Json :=
          ("ing", worldJ n.g.2.1),
          ("route", optJ RV.Drv.Gateway.rulesJ n.g.2.2)]
 
-def outJ (kinds : List String) (a0 : Api) (o : XOut CNet) : Json :=
+/-- `bare`: the stable Service has no selector entry besides the revision label — no Manager call changes that -/
+def outJ (kinds : List String) (a0 : Api) (bare : Bool) (o : XOut CNet) : Json :=
   if o.panic then mkObj [("panic", boolJ true)]
-  else mkObj [("done", boolJ o.done), ("err", boolJ o.err), ("net", netJ kinds o.net),
+  else mkObj [("done", boolJ o.done), ("err", boolJ o.err),
+              ("net", if bare && o.net.stableExists then (netJ kinds o.net).setObjVal! "stableBare" (boolJ true) else netJ kinds o.net),
               ("mem", RV.Drv.Traffic.memToJson o.mem), ("touched", boolJ o.touched), ("recheck", boolJ o.recheck),
               ("writes", arrJ (o.writes.map strJ)), ("readFailed", boolJ (readFailed a0 o.a))]
 
@@ -176,6 +178,13 @@ def handleCall (inp impl : Json) : R OpResult := do
   let pristine ← (match jopt trace "pristine" with | none => pure false | some v => jbool v)
   let s := c.strategy
   let sAll := stratOps.routeAll s
+  -- known-finding region `selectorlessStable` (outside the model: the abstract Service state has no "selector is
+  -- nil" component): the stable Service carries no selector at all and `DoTrafficRouting` is about to create the
+  -- canary Service from it — `createCanaryService` assigns into the nil selector map and panics
+  let stableBare ← (match jopt (← jget inp "net") "stableBare" with | none => pure false | some v => jbool v)
+  let gBare := stableBare && call == "doTrafficRouting" && c.hasRef && isStep stratOps s && n.stableExists &&
+    n.stableSel.isNone && n.canarySvc.isNone && !c.noGen && c.stableRev != "" && c.canaryRev != "" &&
+    !(c.lastUpdate == .fresh && decide (c.doGrace > 0)) && !b.armed
   -- known-finding region `sameServiceGateway`: no canary Service of its own (the providers get the stable name
   -- twice) together with a Gateway API ref.  There the Gateway member is judged by `C05.x_finalise_restores`
   -- alone; the other oracles judge the remaining members.
@@ -201,7 +210,8 @@ def handleCall (inp impl : Json) : R OpResult := do
     (if c.hasRef then [] else ["noRef"]) ++ (if b.w.isSome then ["fault:write"] else []) ++
     (if b.armed then ["fault:read"] else []) ++
     (if s.rhm.isSome then ["rhm"] else []) ++
-    (if c.hasRevKey then [] else ["guard:noRevKey"]) ++ (if gSame then ["guard:sameServiceGateway"] else []) ++
+    (if c.hasRevKey then [] else ["guard:noRevKey"]) ++ (if gBare then ["guard:selectorlessStable"] else []) ++
+    (if stableBare then ["stableBare"] else []) ++ (if gSame then ["guard:sameServiceGateway"] else []) ++
     (if gOutside then ["route:outside-inv"] else []) ++
     (if pristine then ["walk:pristine"] else [])
   if call == "initialize" then
@@ -214,10 +224,12 @@ def handleCall (inp impl : Json) : R OpResult := do
   | some o =>
     let modelled := shapesModelled p nin.refs [cuStrategy s, cuStrategy sAll]
     if !modelled then tags := tags ++ ["shape:unmodelled"]
-    let model := if modelled then outJ kinds b o else Json.null
+    let model := if modelled && !gBare then outJ kinds b stableBare o else Json.null
     if (jopt impl "panic").isSome then
-      return { model := model, holds := [("C03.x_no_panic", false), ("C04.x_no_panic", false), ("C05.x_no_panic", false),
-                                        ("C07.x_no_panic", false)], tags := tags ++ ["panic"] }
+      -- inside the region of the known finding the panic is judged under C09 alone
+      let keys := if gBare then ["C09.x_no_panic"]
+        else ["C03.x_no_panic", "C04.x_no_panic", "C05.x_no_panic", "C06.x_no_panic", "C07.x_no_panic", "C09.x_no_panic"]
+      return { model := model, holds := keys.map fun k => (k, false), tags := tags ++ ["panic"] }
     let io ← outOf p.canary impl
     tags := tags ++ [if io.done then "res:true" else "res:false", if io.err then "err" else "noerr",
                      if io.writes.isEmpty then "nowrite" else sizeTag "writes" io.writes.length] ++
@@ -230,7 +242,7 @@ def handleCall (inp impl : Json) : R OpResult := do
     let orig ← (match jopt trace "orig" with
       | none => pure none
       | some v => do pure (some (← netOf p.canary v)))
-    let mut holds : List (String × Bool) := []
+    let mut holds : List (String × Bool) := [("C09.x_no_panic", true)]
     holds := holds ++ [("C05.x_frame", frameX call n io)]
     -- a read that failed with a non-NotFound error (reported by the harness' client) is reported by the call
     let iReadFailed ← fBool impl "readFailed"
